@@ -171,6 +171,31 @@ def relocate_stream(rng, pid, kinds=ALL_KINDS):
     return out
 
 
+def many_threads_stream(rng, pid, n=24):
+    """8 to 12 threads on one iterator (every other stream has at most 4): pulls of every form, loops, a skip now and then"""
+    out = []
+    for i in range(n):
+        kind = rng.choice(ALL_KINDS)
+        L = rng.choice([3, 8, 17, 40])
+        c = make_source(rng, "%s-mt%d" % (pid, i), kind, L, hint=rng.choice(["exact", "inexact"]))
+        L = c.src_len()
+        nt = rng.randint(8, 12)
+        c.threads = []
+        for t in range(nt):
+            ops = []
+            for _ in range(rng.randint(1, 3)):
+                ops.append(rng.choice(["next", "next", "nextv", "chunk 2 all", "chunk 3 1", "chunk %d all" % max(1, L // 4), "len", "hasmore"]))
+            if rng.random() < 0.6:
+                ops.append(rng.choice(["foreach 1", "foreach 2", "enumforeach 3", "fold 2", "values"]))
+            c.threads.append(ops)
+        if pid in ("C06", "C09") and rng.random() < 0.3:
+            c.threads[rng.randrange(nt)].insert(0, "skip")
+        c.sched = rand_sched(rng, nt, rng.randint(0, 80))
+        c.owner = rng.choice(["drop", "intoseq all"])
+        out.append(c)
+    return out
+
+
 def reenter_stream(rng, pid, skip=False):
     """re-entrancy: the wrapped iterator's own `next()` asks the concurrent iterator around it how much is left (`has_more`,
     `try_get_len`) -- at its k-th call, from whichever thread is inside. Implementation only (the model has no nested operation)"""
@@ -830,7 +855,7 @@ def stream_for0(pid, tier, seed):
     big = tier != "quick"
     if pid in ("C01", "C02", "C04"):
         return defects + pulls_stream(rng, tier, pid) + half_stream(rng, pid) + nth_stream(rng, pid) + liar_stream(rng, pid) + zst_stream(rng, pid) + pod_stream(rng, pid) + \
-            wrapper_nth_stream(rng, pid) + last_stream(rng, pid) + forget_stream(rng, pid) + relocate_stream(rng, pid) + stall_stream(rng, pid) + reenter_stream(rng, pid)
+            wrapper_nth_stream(rng, pid) + last_stream(rng, pid) + forget_stream(rng, pid) + relocate_stream(rng, pid) + stall_stream(rng, pid) + reenter_stream(rng, pid) + many_threads_stream(rng, pid)
     if pid == "C03":
         cases = defects + pulls_stream(rng, tier, pid, prof=dict(loops=False, query=False, drain=0.2))
         cases += half_stream(rng, pid) + nth_stream(rng, pid) + liar_stream(rng, pid) + zst_stream(rng, pid) + pod_stream(rng, pid)
@@ -958,7 +983,7 @@ def stream_for0(pid, tier, seed):
             for b in bases:
                 b.script = b.script[:k] + ["P"] + b.script[k:]
             cases += exhaustive("C09-px%d" % k, bases, 2, 7 if not big else 10)
-        cases += huge_chunk_stream(rng, pid) + wrapper_droppanic_stream(rng, pid) + inpanic_stream(rng, pid) + stall_stream(rng, pid) + reenter_stream(rng, pid, skip=True)
+        cases += huge_chunk_stream(rng, pid) + wrapper_droppanic_stream(rng, pid) + inpanic_stream(rng, pid) + stall_stream(rng, pid) + reenter_stream(rng, pid, skip=True) + many_threads_stream(rng, pid)
         return cases
     if pid == "C10":
         return defects + pulls_stream(rng, tier, pid, prof=dict(skip=True, owners=["intoseq all", "intoseq 1", "intoseq 2", "intoseq 0"]), exh=False, n_random=2000 if not big else 80000) + liar_stream(rng, pid) + zst_stream(rng, pid) + \
@@ -996,7 +1021,7 @@ def stream_for0(pid, tier, seed):
                             c.sched = rand_sched(rng, 2, 14)
                             cases.append(c)
                             i += 1
-        cases += [c for c in inpanic_stream(rng, pid) if "P" not in c.script]
+        cases += [c for c in inpanic_stream(rng, pid) if "P" not in c.script] + many_threads_stream(rng, pid)
         # the function panics at every position of a one-by-one / chunked loop over a known-size source
         cases += [c for c in closure_panic_stream(rng, pid, kinds=("slice", "vec", "range", "array")) if c.threads[0][0].split()[1] in ("1", "2") and c.src_len() <= 5]
         # zero-sized elements through every loop (chunk size 1 and > 1)
